@@ -38,7 +38,7 @@ let run_est (c : Caseio.case) =
   List.iteri
     (fun k o ->
       let ks = string_of_int k in
-      if o = "mv" || o = "ma" then begin
+      if o = "mv" || o = "ma" || o = "vg" then begin
         let target, source = c17_move fops !st in
         st := target;
         Caseio.out_int ("ret" ^ ks) 1;
@@ -95,7 +95,7 @@ let run_hb (c : Caseio.case) =
   List.iteri
     (fun k o ->
       let ks = string_of_int k in
-      if o = "mv" || o = "ma" then begin
+      if o = "mv" || o = "ma" || o = "vg" then begin
         let target, source = c17_hb_move fops !h in
         h := target;
         Caseio.out_int ("ret" ^ ks) 1;
